@@ -392,6 +392,18 @@ static void gen(FILE *fo,long n)
     }
 }
 
+#include <signal.h>
+#include <setjmp.h>
+#include <unistd.h>
+#include <sys/time.h>
+static sigjmp_buf wd_jb;
+static void wd_alarm(int s){ (void)s; siglongjmp(wd_jb,1); }
+static void wd_crash(int s){ (void)s; siglongjmp(wd_jb,2); }
+static void wd_arm(int cpu_ms,int wall_ms){
+    struct itimerval it={{0,0},{cpu_ms/1000,(cpu_ms%1000)*1000}}; setitimer(ITIMER_VIRTUAL,&it,NULL);
+    struct itimerval iw={{0,0},{wall_ms/1000,(wall_ms%1000)*1000}}; setitimer(ITIMER_REAL,&iw,NULL);
+}
+
 int main(int argc,char **argv)
 {
     if(argc>=5 && !strcmp(argv[1],"gen")){
@@ -406,13 +418,23 @@ int main(int argc,char **argv)
     }
     if(argc>=4 && !strcmp(argv[1],"exec")){
         FILE *fi=fopen(argv[2],"r"),*fo=fopen(argv[3],"w"); if(!fi||!fo) return 2;
+        signal(SIGVTALRM,wd_alarm); signal(SIGALRM,wd_alarm);
+        signal(SIGSEGV,wd_crash); signal(SIGBUS,wd_crash); signal(SIGABRT,wd_crash); signal(SIGFPE,wd_crash);
         static char buf[1<<15];
         while(fgets(buf,sizeof buf,fi)){
             char *tok[MAXTOK]; int nt=0; for(char *s=strtok(buf," \t\r\n");s&&nt<MAXTOK;s=strtok(NULL," \t\r\n")) tok[nt++]=s;
             if(nt==0){ fprintf(fo,"bad-op\n"); continue; }
-            if(!strcmp(tok[0],"spot")){ if(run_spot(tok,nt,fo)<0) fprintf(fo,"bad-op\n"); continue; }
-            if(!strcmp(tok[0],"acc")){ if(run_acc(tok,nt,fo)<0) fprintf(fo,"bad-op\n"); continue; }
-            if(run_request(tok,nt,fo)<0) fprintf(fo,"bad-op\n");
+            /* every request (cache calls and drawing calls of the library) runs under a CPU-time and a wall-clock
+             * watchdog; an expired watchdog / a fatal signal is reported as the request's result and the process
+             * exits with status 3 (its heap is no longer trusted): checks/C17.py restarts it on the remaining lines */
+            { int why=sigsetjmp(wd_jb,1);
+              if(why){ wd_arm(0,0); fprintf(fo,why==1?"HANG the request did not terminate\n":"CRASH fatal signal\n"); fflush(fo); _exit(3); } }
+            wd_arm(3000,15000);
+            if(!strcmp(tok[0],"spot")){ if(run_spot(tok,nt,fo)<0) fprintf(fo,"bad-op\n"); }
+            else if(!strcmp(tok[0],"acc")){ if(run_acc(tok,nt,fo)<0) fprintf(fo,"bad-op\n"); }
+            else if(run_request(tok,nt,fo)<0) fprintf(fo,"bad-op\n");
+            wd_arm(0,0);
+            fflush(fo);
         }
         fclose(fo); return 0;
     }
